@@ -49,6 +49,7 @@ func childMain() {
 		os.Exit(4)
 	}
 	ctx := context.Background()
+	before, _ := fs.Get(ctx, o.Addr)
 	crashkit.Mark()
 	switch o.Op {
 	case "P":
@@ -58,10 +59,17 @@ func childMain() {
 	}
 	crashkit.Mark()
 	if err != nil {
+		// an operation that failed must not be visible: the store answers as before
+		if after, gerr := fs.Get(ctx, o.Addr); gerr == nil && after != before {
+			os.Exit(6)
+		}
 		os.Exit(5)
 	}
 	os.Exit(0)
 }
+
+// number of crash scenarios that are also run with failing system calls
+var ioErrBudget = 0
 
 type crashDir struct {
 	base, dir, path string
@@ -304,6 +312,13 @@ func runCrash(cc crashCase) {
 			oldMode = 0o644
 		}
 	}
+	if cc.Kind == "KE" || (cc.K < 0 && ioErrBudget > 0) {
+		ioErrBudget--
+		runIOErrors(cc, rec, win, oldc, newc, dirExisted)
+		if cc.Kind == "KE" {
+			return
+		}
+	}
 	ctx := context.Background()
 	for k := 0; k < len(win); k++ {
 		if cc.K >= 0 && cc.K != k {
@@ -332,6 +347,7 @@ func runCrash(cc crashCase) {
 		run.Case(id, fmt.Sprintf("K %s %s %d %d 0 %d %s", dm, oldTok, oldMode, steps, len(chunks), strings.Join(chunks, " ")),
 			fmt.Sprintf("STEPS %d DIR %s CFG %s TMP %s", nchain+4+len(chunks), obs.dirMode, obs.cfg, obs.tmp))
 		run.Count("crash:killed-before-" + rec.Calls[win[k]].Name)
+		run.Count("crash:judged-kills")
 		if done > 0 {
 			run.Nontrivial(fmt.Sprintf("K|%v|%v|%d", cc.Init, cc.Op, k))
 		}
@@ -371,6 +387,66 @@ func runCrash(cc crashCase) {
 			isNew := obs.cfgThere && string(obs.cfgData) == string(newc)
 			if isNew && (err != nil || c != cc.Op.cred()) {
 				fail(id, "crash-roundtrip", fmt.Sprintf("new file present but Get = %v %v", c, err), k)
+			}
+		}
+		os.RemoveAll(d.base)
+	}
+}
+
+// runIOErrors: the same window, but instead of killing the process the k-th system
+// call FAILS (EIO / ENOSPC).  I/O errors are outside the property's quantifier and
+// not modelled; what is checked (oracle only) is "never damages the config file":
+// an operation that reports an error leaves the complete old file and no ingest
+// file behind; one that reports success has written the complete new file.
+func runIOErrors(cc crashCase, rec *crashkit.Trace, win []int, oldc, newc []byte, dirExisted bool) {
+	for k := 0; k < len(win); k++ {
+		name := rec.Calls[win[k]].Name
+		switch name {
+		case "openat", "mkdirat", "mkdir", "fchmod", "write", "close", "renameat", "rename", "renameat2", "newfstatat":
+		default:
+			continue // failures of fcntl/epoll_ctl are runtime-internal
+		}
+		id := run.NewID()
+		d := cc.prepare()
+		errno := "EIO"
+		if name == "write" || name == "mkdirat" || name == "openat" {
+			errno = "ENOSPC"
+		}
+		res, err := crashkit.FailAt(cc.cmd(d), rec, win[k], errno)
+		if err != nil || !res.Aligned {
+			run.Count("ioerr:unaligned")
+			os.RemoveAll(d.base)
+			continue
+		}
+		run.Evaluations++
+		run.Count("ioerr:injected-" + name)
+		obs := observeDir(d, dirExisted)
+		c2 := cc
+		c2.K = k
+		c2.Kind = "KE"
+		fail := func(sig, msg string) { run.OracleFail(id, sig, msg, c2) }
+		failed := res.Exit == 5 || res.Exit == 6
+		if res.Exit == 6 {
+			fail("ioerr-failed-op-visible", fmt.Sprintf("%s failing with %s made %s(%q) return an error, yet Get on the same store no longer answers as before: the failed operation stays in memory (and reaches the file with the next save)", name, errno, cc.Op.Op, cc.Op.Addr))
+		}
+		switch {
+		case res.Exit != 0 && res.Exit != 5 && res.Exit != 6:
+			run.Count("ioerr:child-other-exit")
+		case failed:
+			run.Count("ioerr:operation-failed")
+			if cc.Init != nil && (!obs.cfgThere || string(obs.cfgData) != string(oldc)) {
+				fail("ioerr-damaged", fmt.Sprintf("%s failing with %s made the operation fail, but the config file is no longer the old document", name, errno))
+			}
+			if cc.Init == nil && obs.cfgThere && string(obs.cfgData) != string(newc) {
+				fail("ioerr-damaged", fmt.Sprintf("%s failing with %s made the operation fail and left a partial config file", name, errno))
+			}
+			if len(obs.tmps) > 0 {
+				fail("ioerr-temp-left", fmt.Sprintf("%s failing with %s made the operation fail and an ingest file (with the secrets) stays behind", name, errno))
+			}
+		default:
+			run.Count("ioerr:operation-succeeded")
+			if !obs.cfgThere || string(obs.cfgData) != string(newc) || obs.cfgMode != 0o600 {
+				fail("ioerr-damaged", fmt.Sprintf("the operation reported success although %s failed with %s, and the config is not the complete new 0600 file", name, errno))
 			}
 		}
 		os.RemoveAll(d.base)
